@@ -226,7 +226,7 @@ def main() -> int:
                                       "spec": "script lineage equals the combination of each statement's lineage analysed on its own"})
 
     # ---- T4: model of the statement loop on the parser's trees ----------------------------------------
-    recs = gen_scripts.gen_records(r, 80 if quick else 800)
+    recs = gen_scripts.gen_records(r, 80 if quick else 800) + gen_scripts.rename_scripts(r, None if quick else 100)
     for x in t2tie.run_scripts(recs):
         ck.count()
         if "skip" in x or x["stats"].get("multi_rename"):
